@@ -4,6 +4,7 @@ import (
 	"bytes"
 	"io"
 	"log"
+	"slices"
 	"time"
 
 	acmelibv1 "github.com/squadracorsepolito/acmelib/proto/gen/go/acmelib/v1"
@@ -66,27 +67,28 @@ func newLoader() *loader {
 }
 
 func (l *loader) loadEntity(pEnt *acmelibv1.Entity, entKind EntityKind) *entity {
+	// the getters are safe on a missing (nil) entity header
 	var cTime time.Time
-	if pEnt.CreateTime.IsValid() {
-		cTime = pEnt.CreateTime.AsTime()
+	if pEnt.GetCreateTime().IsValid() {
+		cTime = pEnt.GetCreateTime().AsTime()
 	} else {
 		cTime = time.Now()
 	}
 
 	return &entity{
-		entityID:   EntityID(pEnt.EntityId),
-		name:       pEnt.Name,
-		desc:       pEnt.Desc,
+		entityID:   EntityID(pEnt.GetEntityId()),
+		name:       pEnt.GetName(),
+		desc:       pEnt.GetDesc(),
 		entityKind: entKind,
 		createTime: cTime,
 	}
 }
 
 func (l *loader) loadNetwork(pNet *acmelibv1.Network) (*Network, error) {
-	net := newNetworkFromEntity(l.loadEntity(pNet.Entity, EntityKindNetwork))
+	net := newNetworkFromEntity(l.loadEntity(pNet.GetEntity(), EntityKindNetwork))
 
 	for _, pBuilder := range pNet.CanidBuilders {
-		l.refCANIDBuilders[pBuilder.Entity.EntityId] = l.loadCANIDBuilder(pBuilder)
+		l.refCANIDBuilders[pBuilder.GetEntity().GetEntityId()] = l.loadCANIDBuilder(pBuilder)
 	}
 
 	for _, pAtt := range pNet.Attributes {
@@ -94,7 +96,7 @@ func (l *loader) loadNetwork(pNet *acmelibv1.Network) (*Network, error) {
 		if err != nil {
 			return nil, err
 		}
-		l.refAttributes[pAtt.Entity.EntityId] = att
+		l.refAttributes[pAtt.GetEntity().GetEntityId()] = att
 	}
 
 	for _, pNode := range pNet.Nodes {
@@ -102,7 +104,7 @@ func (l *loader) loadNetwork(pNet *acmelibv1.Network) (*Network, error) {
 		if err != nil {
 			return nil, err
 		}
-		l.refNodes[pNode.Entity.EntityId] = node
+		l.refNodes[pNode.GetEntity().GetEntityId()] = node
 	}
 
 	for _, pSigType := range pNet.SignalTypes {
@@ -110,11 +112,11 @@ func (l *loader) loadNetwork(pNet *acmelibv1.Network) (*Network, error) {
 		if err != nil {
 			return nil, err
 		}
-		l.refSigTypes[pSigType.Entity.EntityId] = sigType
+		l.refSigTypes[pSigType.GetEntity().GetEntityId()] = sigType
 	}
 
 	for _, pSigUnit := range pNet.SignalUnits {
-		l.refSigUnits[pSigUnit.Entity.EntityId] = l.loadSignalUnit(pSigUnit)
+		l.refSigUnits[pSigUnit.GetEntity().GetEntityId()] = l.loadSignalUnit(pSigUnit)
 	}
 
 	for _, pSigEnum := range pNet.SignalEnums {
@@ -122,7 +124,7 @@ func (l *loader) loadNetwork(pNet *acmelibv1.Network) (*Network, error) {
 		if err != nil {
 			return nil, err
 		}
-		l.refSigEnums[pSigEnum.Entity.EntityId] = sigEnum
+		l.refSigEnums[pSigEnum.GetEntity().GetEntityId()] = sigEnum
 	}
 
 	for _, pBus := range pNet.Buses {
@@ -130,14 +132,16 @@ func (l *loader) loadNetwork(pNet *acmelibv1.Network) (*Network, error) {
 		if err != nil {
 			return nil, err
 		}
-		net.AddBus(bus)
+		if err := net.AddBus(bus); err != nil {
+			return nil, err
+		}
 	}
 
 	return net, nil
 }
 
 func (l *loader) loadCANIDBuilder(pBuilder *acmelibv1.CANIDBuilder) *CANIDBuilder {
-	builder := newCANIDBuilderFromEntity(l.loadEntity(pBuilder.Entity, EntityKindCANIDBuilder))
+	builder := newCANIDBuilderFromEntity(l.loadEntity(pBuilder.GetEntity(), EntityKindCANIDBuilder))
 
 	for _, pBuilderOp := range pBuilder.Operations {
 		builder.operations = append(builder.operations, l.loadCANIDBuilderOp(pBuilderOp))
@@ -162,7 +166,7 @@ func (l *loader) loadCANIDBuilderOp(pBuilderOp *acmelibv1.CANIDBuilderOp) *CANID
 }
 
 func (l *loader) loadNode(pNode *acmelibv1.Node) (*Node, error) {
-	node := newNodeFromEntity(l.loadEntity(pNode.Entity, EntityKindNode), NodeID(pNode.NodeId), int(pNode.InterfaceCount))
+	node := newNodeFromEntity(l.loadEntity(pNode.GetEntity(), EntityKindNode), NodeID(pNode.NodeId), int(pNode.InterfaceCount))
 
 	for _, pAttAss := range pNode.AttributeAssignments {
 		if err := l.loadAttributeAssignment(node, pAttAss); err != nil {
@@ -174,7 +178,7 @@ func (l *loader) loadNode(pNode *acmelibv1.Node) (*Node, error) {
 }
 
 func (l *loader) loadBus(pBus *acmelibv1.Bus) (*Bus, error) {
-	bus := newBusFromEntity(l.loadEntity(pBus.Entity, EntityKindBus))
+	bus := newBusFromEntity(l.loadEntity(pBus.GetEntity(), EntityKindBus))
 
 	var typ BusType
 	switch pBus.Type {
@@ -184,6 +188,17 @@ func (l *loader) loadBus(pBus *acmelibv1.Bus) (*Bus, error) {
 	bus.SetType(typ)
 
 	bus.SetBaudrate(int(pBus.Baudrate))
+
+	if builderEntID := pBus.GetCanidBuilderEntityId(); builderEntID != "" {
+		builder, ok := l.refCANIDBuilders[builderEntID]
+		if !ok {
+			return nil, &EntityIDError{
+				EntityID: EntityID(builderEntID),
+				Err:      ErrNotFound,
+			}
+		}
+		bus.SetCANIDBuilder(builder)
+	}
 
 	for _, pNodeInt := range pBus.NodeInterfaces {
 		nodeInt, err := l.loadNodeInterface(pNodeInt)
@@ -206,20 +221,20 @@ func (l *loader) loadBus(pBus *acmelibv1.Bus) (*Bus, error) {
 }
 
 func (l *loader) loadNodeInterface(pNodeInt *acmelibv1.NodeInterface) (*NodeInterface, error) {
-	node, ok := l.refNodes[pNodeInt.NodeEntityId]
+	node, ok := l.refNodes[pNodeInt.GetNodeEntityId()]
 	if !ok {
 		return nil, &EntityIDError{
-			EntityID: EntityID(pNodeInt.NodeEntityId),
+			EntityID: EntityID(pNodeInt.GetNodeEntityId()),
 			Err:      ErrNotFound,
 		}
 	}
 
-	nodeInt, err := node.GetInterface(int(pNodeInt.Number))
+	nodeInt, err := node.GetInterface(int(pNodeInt.GetNumber()))
 	if err != nil {
 		return nil, err
 	}
 
-	for _, pMsg := range pNodeInt.Messages {
+	for _, pMsg := range pNodeInt.GetMessages() {
 		msg, err := l.loadMessage(pMsg)
 		if err != nil {
 			return nil, err
@@ -235,26 +250,26 @@ func (l *loader) loadNodeInterface(pNodeInt *acmelibv1.NodeInterface) (*NodeInte
 
 func (l *loader) loadSignalPayload(pSigPayload *acmelibv1.SignalPayload) map[string]int {
 	sigMap := make(map[string]int)
-	for _, pRef := range pSigPayload.Refs {
-		sigMap[pRef.SignalEntityId] = int(pRef.RelStartBit)
+	for _, pRef := range pSigPayload.GetRefs() {
+		sigMap[pRef.GetSignalEntityId()] = int(pRef.GetRelStartBit())
 	}
 	return sigMap
 }
 
 func (l *loader) loadMessage(pMsg *acmelibv1.Message) (*Message, error) {
-	msg := newMessageFromEntity(l.loadEntity(pMsg.Entity, EntityKindMessage), MessageID(pMsg.MessageId), int(pMsg.SizeByte))
+	msg := newMessageFromEntity(l.loadEntity(pMsg.GetEntity(), EntityKindMessage), MessageID(pMsg.MessageId), int(pMsg.SizeByte))
 
-	sigMap := l.loadSignalPayload(pMsg.Payload)
+	sigMap := l.loadSignalPayload(pMsg.GetPayload())
 	for _, pSig := range pMsg.Signals {
 		sig, err := l.loadSignal(pSig)
 		if err != nil {
 			return nil, err
 		}
 
-		sigPos, ok := sigMap[pSig.Entity.EntityId]
+		sigPos, ok := sigMap[pSig.GetEntity().GetEntityId()]
 		if !ok {
 			return nil, &EntityIDError{
-				EntityID: EntityID(pSig.Entity.EntityId),
+				EntityID: EntityID(pSig.GetEntity().GetEntityId()),
 				Err:      ErrNotFound,
 			}
 		}
@@ -312,15 +327,15 @@ func (l *loader) loadMessage(pMsg *acmelibv1.Message) (*Message, error) {
 	}
 
 	for _, pRec := range pMsg.Receivers {
-		recNode, ok := l.refNodes[pRec.NodeEntityId]
+		recNode, ok := l.refNodes[pRec.GetNodeEntityId()]
 		if !ok {
 			return nil, &EntityIDError{
-				EntityID: EntityID(pRec.NodeEntityId),
+				EntityID: EntityID(pRec.GetNodeEntityId()),
 				Err:      ErrNotFound,
 			}
 		}
 
-		recNodeInt, err := recNode.GetInterface(int(pRec.NodeInterfaceNumber))
+		recNodeInt, err := recNode.GetInterface(int(pRec.GetNodeInterfaceNumber()))
 		if err != nil {
 			return nil, err
 		}
@@ -348,7 +363,7 @@ func (l *loader) loadSignal(pSig *acmelibv1.Signal) (Signal, error) {
 		kind = SignalKindMultiplexer
 	}
 
-	baseSig := newSignalFromEntity(l.loadEntity(pSig.Entity, EntityKindSignal), kind)
+	baseSig := newSignalFromEntity(l.loadEntity(pSig.GetEntity(), EntityKindSignal), kind)
 
 	var sig Signal
 	switch tmpPSig := pSig.Signal.(type) {
@@ -390,6 +405,9 @@ func (l *loader) loadSignal(pSig *acmelibv1.Signal) (Signal, error) {
 			return nil, err
 		}
 		sig = muxSig
+
+	default:
+		return nil, &ErrMissingOneofField{OneofField: "signal"}
 	}
 
 	switch pSig.SendType {
@@ -423,10 +441,10 @@ func (l *loader) loadSignal(pSig *acmelibv1.Signal) (Signal, error) {
 }
 
 func (l *loader) loadStandardSignal(baseSig *signal, pStdSig *acmelibv1.StandardSignal) (*StandardSignal, error) {
-	sigTyp, ok := l.refSigTypes[pStdSig.TypeEntityId]
+	sigTyp, ok := l.refSigTypes[pStdSig.GetTypeEntityId()]
 	if !ok {
 		return nil, &EntityIDError{
-			EntityID: EntityID(pStdSig.TypeEntityId),
+			EntityID: EntityID(pStdSig.GetTypeEntityId()),
 			Err:      ErrNotFound,
 		}
 	}
@@ -436,11 +454,11 @@ func (l *loader) loadStandardSignal(baseSig *signal, pStdSig *acmelibv1.Standard
 		return nil, err
 	}
 
-	if len(pStdSig.UnitEntityId) > 0 {
-		sigUnit, ok := l.refSigUnits[pStdSig.UnitEntityId]
+	if len(pStdSig.GetUnitEntityId()) > 0 {
+		sigUnit, ok := l.refSigUnits[pStdSig.GetUnitEntityId()]
 		if !ok {
 			return nil, &EntityIDError{
-				EntityID: EntityID(pStdSig.UnitEntityId),
+				EntityID: EntityID(pStdSig.GetUnitEntityId()),
 				Err:      ErrNotFound,
 			}
 		}
@@ -451,10 +469,10 @@ func (l *loader) loadStandardSignal(baseSig *signal, pStdSig *acmelibv1.Standard
 }
 
 func (l *loader) loadEnumSignal(baseSig *signal, pEnumSig *acmelibv1.EnumSignal) (*EnumSignal, error) {
-	sigEnum, ok := l.refSigEnums[pEnumSig.EnumEntityId]
+	sigEnum, ok := l.refSigEnums[pEnumSig.GetEnumEntityId()]
 	if !ok {
 		return nil, &EntityIDError{
-			EntityID: EntityID(pEnumSig.EnumEntityId),
+			EntityID: EntityID(pEnumSig.GetEnumEntityId()),
 			Err:      ErrNotFound,
 		}
 	}
@@ -462,27 +480,27 @@ func (l *loader) loadEnumSignal(baseSig *signal, pEnumSig *acmelibv1.EnumSignal)
 }
 
 func (l *loader) loadMultiplexerSignal(baseSig *signal, pMuxSig *acmelibv1.MultiplexerSignal) (*MultiplexerSignal, error) {
-	muxSig, err := newMultiplexerSignalFromBase(baseSig, int(pMuxSig.GroupCount), int(pMuxSig.GroupSize))
+	muxSig, err := newMultiplexerSignalFromBase(baseSig, int(pMuxSig.GetGroupCount()), int(pMuxSig.GetGroupSize()))
 	if err != nil {
 		return nil, err
 	}
 
 	muxedSignals := make(map[string]Signal)
-	for _, pMuxedSig := range pMuxSig.Signals {
+	for _, pMuxedSig := range pMuxSig.GetSignals() {
 		sig, err := l.loadSignal(pMuxedSig)
 		if err != nil {
 			return nil, err
 		}
-		muxedSignals[pMuxedSig.Entity.EntityId] = sig
+		muxedSignals[pMuxedSig.GetEntity().GetEntityId()] = sig
 	}
 
 	fixedSignals := make(map[string]struct{})
-	for _, fixEntID := range pMuxSig.FixedSignalEntityIds {
+	for _, fixEntID := range pMuxSig.GetFixedSignalEntityIds() {
 		fixedSignals[fixEntID] = struct{}{}
 	}
 
 	insFixedSignals := make(map[string]struct{})
-	for groupID, pGroup := range pMuxSig.Groups {
+	for groupID, pGroup := range pMuxSig.GetGroups() {
 		sigMap := l.loadSignalPayload(pGroup)
 
 		for sigEntID, startPos := range sigMap {
@@ -527,7 +545,7 @@ func (l *loader) loadSignalType(pSigType *acmelibv1.SignalType) (*SignalType, er
 		kind = SignalTypeKindDecimal
 	}
 
-	ent := l.loadEntity(pSigType.Entity, EntityKindSignalType)
+	ent := l.loadEntity(pSigType.GetEntity(), EntityKindSignalType)
 	return newSignalTypeFromEntity(ent, kind, int(pSigType.Size), pSigType.Signed, pSigType.Min, pSigType.Max, pSigType.Scale, pSigType.Offset)
 }
 
@@ -543,11 +561,11 @@ func (l *loader) loadSignalUnit(pSigUnit *acmelibv1.SignalUnit) *SignalUnit {
 	case acmelibv1.SignalUnitKind_SIGNAL_UNIT_KIND_POWER:
 		kind = SignalUnitKindPower
 	}
-	return newSignalUnitFromEntity(l.loadEntity(pSigUnit.Entity, EntityKindSignalUnit), kind, pSigUnit.Symbol)
+	return newSignalUnitFromEntity(l.loadEntity(pSigUnit.GetEntity(), EntityKindSignalUnit), kind, pSigUnit.Symbol)
 }
 
 func (l *loader) loadSignalEnum(pSigEnum *acmelibv1.SignalEnum) (*SignalEnum, error) {
-	sigEnum := newSignalEnumFromEntity(l.loadEntity(pSigEnum.Entity, EntityKindSignalEnum))
+	sigEnum := newSignalEnumFromEntity(l.loadEntity(pSigEnum.GetEntity(), EntityKindSignalEnum))
 
 	for _, pVal := range pSigEnum.Values {
 		val := l.loadSignalEnumValue(pVal)
@@ -564,7 +582,7 @@ func (l *loader) loadSignalEnum(pSigEnum *acmelibv1.SignalEnum) (*SignalEnum, er
 }
 
 func (l *loader) loadSignalEnumValue(pVal *acmelibv1.SignalEnumValue) *SignalEnumValue {
-	return newSignalEnumValueFromEntity(l.loadEntity(pVal.Entity, EntityKindSignalEnumValue), int(pVal.Index))
+	return newSignalEnumValueFromEntity(l.loadEntity(pVal.GetEntity(), EntityKindSignalEnumValue), int(pVal.Index))
 }
 
 func (l *loader) loadAttribute(pAtt *acmelibv1.Attribute) (Attribute, error) {
@@ -580,7 +598,7 @@ func (l *loader) loadAttribute(pAtt *acmelibv1.Attribute) (Attribute, error) {
 		typ = AttributeTypeEnum
 	}
 
-	baseAtt := newAttributeFromEntity(l.loadEntity(pAtt.Entity, EntityKindAttribute), typ)
+	baseAtt := newAttributeFromEntity(l.loadEntity(pAtt.GetEntity(), EntityKindAttribute), typ)
 
 	var att Attribute
 	switch tmpPAtt := pAtt.Attribute.(type) {
@@ -641,16 +659,16 @@ func (l *loader) loadAttribute(pAtt *acmelibv1.Attribute) (Attribute, error) {
 }
 
 func (l *loader) loadStringAttribute(baseAtt *attribute, pStrAtt *acmelibv1.StringAttribute) *StringAttribute {
-	return newStringAttributeFromBase(baseAtt, pStrAtt.DefValue)
+	return newStringAttributeFromBase(baseAtt, pStrAtt.GetDefValue())
 }
 
 func (l *loader) loadIntegerAttribute(baseAtt *attribute, pIntAtt *acmelibv1.IntegerAttribute) (*IntegerAttribute, error) {
-	intAtt, err := newIntegerAttributeFromBase(baseAtt, int(pIntAtt.DefValue), int(pIntAtt.Min), int(pIntAtt.Max))
+	intAtt, err := newIntegerAttributeFromBase(baseAtt, int(pIntAtt.GetDefValue()), int(pIntAtt.GetMin()), int(pIntAtt.GetMax()))
 	if err != nil {
 		return nil, err
 	}
 
-	if pIntAtt.IsHexFormat {
+	if pIntAtt.GetIsHexFormat() {
 		intAtt.SetFormatHex()
 	}
 
@@ -658,28 +676,30 @@ func (l *loader) loadIntegerAttribute(baseAtt *attribute, pIntAtt *acmelibv1.Int
 }
 
 func (l *loader) loadFloatAttribute(baseAtt *attribute, pFloatAtt *acmelibv1.FloatAttribute) (*FloatAttribute, error) {
-	return newFloatAttributeFromBase(baseAtt, pFloatAtt.DefValue, pFloatAtt.Min, pFloatAtt.Max)
+	return newFloatAttributeFromBase(baseAtt, pFloatAtt.GetDefValue(), pFloatAtt.GetMin(), pFloatAtt.GetMax())
 }
 
 func (l *loader) loadEnumAttribute(baseAtt *attribute, pEnumAtt *acmelibv1.EnumAttribute) (*EnumAttribute, error) {
-	values := make([]string, len(pEnumAtt.Values))
-	values[0] = pEnumAtt.DefValue
-	idx := 1
-	for _, val := range pEnumAtt.Values {
-		if val == pEnumAtt.DefValue {
+	// the default value comes first, then the other values in their order
+	defValue := pEnumAtt.GetDefValue()
+	values := make([]string, 0, len(pEnumAtt.GetValues()))
+	if slices.Contains(pEnumAtt.GetValues(), defValue) {
+		values = append(values, defValue)
+	}
+	for _, val := range pEnumAtt.GetValues() {
+		if val == defValue {
 			continue
 		}
-		values[idx] = val
-		idx++
+		values = append(values, val)
 	}
 	return newEnumAttributeFromBase(baseAtt, values...)
 }
 
 func (l *loader) loadAttributeAssignment(attEnt AttributableEntity, pAttAss *acmelibv1.AttributeAssignment) error {
-	att, ok := l.refAttributes[pAttAss.AttributeEntityId]
+	att, ok := l.refAttributes[pAttAss.GetAttributeEntityId()]
 	if !ok {
 		return &EntityIDError{
-			EntityID: EntityID(pAttAss.AttributeEntityId),
+			EntityID: EntityID(pAttAss.GetAttributeEntityId()),
 			Err:      ErrNotFound,
 		}
 	}
